@@ -62,23 +62,136 @@ theorem popBest_eq_none (h : σ → α) (q : List σ) (hn : popBest h q = none) 
     · cases hn
     · split at hn <;> cases hn
 
-/-- **Soundness of `OrderedInfSampler` with its queue**: if the queue holds good states and every
-successful wrapped call produces a good state, a true return yields a good state below the cost
-bound, and the queue left over still holds good states only. -/
+/-- what a fresh batch yields -/
+theorem orderedFresh_sound {S : Type} (h : σ → α) (c : α) (mk : S → Option (List (Wrapped σ) × S))
+    (good : σ → Prop)
+    (hmk : ∀ s b s', mk s = some (b, s') → ∀ w ∈ b, w.1 = true → good w.2)
+    (s : S) (t : σ) (rest : List σ) (s' : S) (hr : orderedFresh h c mk s = .found t rest s') :
+    good t ∧ h t < c ∧ ∀ x ∈ rest, good x := by
+  unfold orderedFresh at hr
+  split at hr
+  · cases hr
+  · rename_i b s1 hmks
+    have hgood : ∀ x ∈ (b.filter (·.1)).map (·.2), good x := by
+      intro x hx
+      obtain ⟨w, hw, e⟩ := List.mem_map.1 hx
+      obtain ⟨hwb, hflag⟩ := List.mem_filter.1 hw
+      exact e ▸ hmk s b s1 hmks w hwb hflag
+    split at hr
+    · cases hr
+    · rename_i t1 r1 hpop
+      obtain ⟨ht1, hr1, _⟩ := popBest_mem h _ t1 r1 hpop
+      split at hr
+      · rename_i hlt
+        injection hr with e1 e2 e3
+        subst e1 e2 e3
+        exact ⟨hgood _ ht1, hlt, fun x hx => hgood x (hr1 x hx)⟩
+      · cases hr
+
+/-- **Soundness of `OrderedInfSampler` with its queue** (fixed, fuel-free code): if the queue holds
+good states and every successful wrapped call produces a good state, a true return yields a good
+state below the cost bound, and the queue left over still holds good states only. -/
 theorem orderedRun_sound {S : Type} (h : σ → α) (c : α) (mk : S → Option (List (Wrapped σ) × S))
     (good : σ → Prop)
     (hmk : ∀ s b s', mk s = some (b, s') → ∀ w ∈ b, w.1 = true → good w.2) :
+    ∀ (q : List σ) (s : S), (∀ x ∈ q, good x) →
+      ∀ (t : σ) (rest : List σ) (s' : S), orderedRun h c mk q s = .found t rest s' →
+        good t ∧ h t < c ∧ ∀ x ∈ rest, good x := by
+  intro q s hq t rest s' hr
+  unfold orderedRun at hr
+  split at hr
+  · exact orderedFresh_sound h c mk good hmk s t rest s' hr
+  · rename_i t1 r1 hpop
+    obtain ⟨ht1, hr1, _⟩ := popBest_mem h _ t1 r1 hpop
+    split at hr
+    · rename_i hlt
+      injection hr with e1 e2 e3
+      subst e1 e2 e3
+      exact ⟨hq _ ht1, hlt, fun x hx => hq x (hr1 x hx)⟩
+    · exact orderedFresh_sound h c mk good hmk s t rest s' hr
+
+/-- a fresh batch returns false only when all its wrapped calls failed or its best is not below
+the bound -/
+theorem orderedFresh_failed {S : Type} (h : σ → α) (c : α) (mk : S → Option (List (Wrapped σ) × S))
+    (s s' : S) (hr : orderedFresh h c mk s = .failed s') :
+    ∃ b, mk s = some (b, s') ∧
+      ((∀ w ∈ b, w.1 = false) ∨
+        ∃ t rest, popBest h ((b.filter (·.1)).map (·.2)) = some (t, rest) ∧ ¬ h t < c) := by
+  unfold orderedFresh at hr
+  split at hr
+  · cases hr
+  · rename_i b s1 hmks
+    split at hr
+    · rename_i hnone
+      injection hr with e
+      subst e
+      refine ⟨b, hmks, Or.inl fun w hw => ?_⟩
+      have hq := popBest_eq_none h _ hnone
+      have hfil : b.filter (·.1) = [] := List.map_eq_nil_iff.1 hq
+      cases hflag : w.1 with
+      | false => rfl
+      | true =>
+        have : w ∈ b.filter (·.1) := List.mem_filter.2 ⟨hw, hflag⟩
+        rw [hfil] at this
+        cases this
+    · rename_i t1 r1 hpop
+      split at hr
+      · cases hr
+      · rename_i hnlt
+        injection hr with e
+        subst e
+        exact ⟨b, hmks, Or.inr ⟨t1, r1, hpop, hnlt⟩⟩
+
+/-- the fixed wrapper returns false only after drawing a fresh batch (from the current wrapped
+state) whose wrapped calls all failed or whose best is not below the bound -/
+theorem orderedRun_failed {S : Type} (h : σ → α) (c : α) (mk : S → Option (List (Wrapped σ) × S))
+    (q : List σ) (s s' : S) (hr : orderedRun h c mk q s = .failed s') :
+    ∃ s0 b, mk s0 = some (b, s') ∧
+      ((∀ w ∈ b, w.1 = false) ∨
+        ∃ t rest, popBest h ((b.filter (·.1)).map (·.2)) = some (t, rest) ∧ ¬ h t < c) := by
+  unfold orderedRun at hr
+  split at hr
+  · obtain ⟨b, hb⟩ := orderedFresh_failed h c mk s s' hr
+    exact ⟨s, b, hb⟩
+  · split at hr
+    · cases hr
+    · obtain ⟨b, hb⟩ := orderedFresh_failed h c mk s s' hr
+      exact ⟨s, b, hb⟩
+
+/-- Witness for the loop BEFORE the `freshBatch` fix: when no wrapped sample beats the bound the old
+loop is still looping after any number of passes. -/
+theorem orderedRunOld_loops (h : σ → α) (c : α) (t : σ) (ht : ¬ h t < c) :
+    ∀ fuel : Nat,
+      orderedRunOld h c (fun _ : Unit => some ([(true, t)], ())) fuel [] () = .starved := by
+  intro fuel
+  induction fuel with
+  | zero => rfl
+  | succ fuel ih =>
+    rw [orderedRunOld]
+    simp [popBest, ht, ih]
+
+/-- Contrast (after the fix): the same situation returns false at once. -/
+theorem orderedRun_returns_false (h : σ → α) (c : α) (t : σ) (ht : ¬ h t < c) :
+    orderedRun h c (fun _ : Unit => some ([(true, t)], ())) [] () = .failed () := by
+  simp [orderedRun, orderedFresh, popBest, ht]
+
+/-- The same soundness for the loop BEFORE the `freshBatch` fix (fuel-indexed): if the queue holds good states and every
+successful wrapped call produces a good state, a true return yields a good state below the cost
+bound, and the queue left over still holds good states only. -/
+theorem orderedRunOld_sound {S : Type} (h : σ → α) (c : α) (mk : S → Option (List (Wrapped σ) × S))
+    (good : σ → Prop)
+    (hmk : ∀ s b s', mk s = some (b, s') → ∀ w ∈ b, w.1 = true → good w.2) :
     ∀ (fuel : Nat) (q : List σ) (s : S), (∀ x ∈ q, good x) →
-      ∀ (t : σ) (rest : List σ) (s' : S), orderedRun h c mk fuel q s = .found t rest s' →
+      ∀ (t : σ) (rest : List σ) (s' : S), orderedRunOld h c mk fuel q s = .found t rest s' →
         good t ∧ h t < c ∧ ∀ x ∈ rest, good x := by
   intro fuel
   induction fuel with
-  | zero => intro q s _ t rest s' hr; simp [orderedRun] at hr
+  | zero => intro q s _ t rest s' hr; simp [orderedRunOld] at hr
   | succ fuel ih =>
     intro q s hq t rest s' hr
     cases q with
     | nil =>
-      rw [orderedRun] at hr
+      rw [orderedRunOld] at hr
       split at hr
       · cases hr
       · rename_i b s1 hmks
@@ -98,7 +211,7 @@ theorem orderedRun_sound {S : Type} (h : σ → α) (c : α) (mk : S → Option 
             exact ⟨hgood _ ht1, hlt, fun x hx => hgood x (hr1 x hx)⟩
           · exact ih [] s1 (fun x hx => by cases hx) t rest s' hr
     | cons y ys =>
-      rw [orderedRun] at hr
+      rw [orderedRunOld] at hr
       split at hr
       · cases hr
       · rename_i t1 r1 hpop
@@ -110,18 +223,18 @@ theorem orderedRun_sound {S : Type} (h : σ → α) (c : α) (mk : S → Option 
           exact ⟨hq _ ht1, hlt, fun x hx => hq x (hr1 x hx)⟩
         · exact ih [] s (fun x hx => by cases hx) t rest s' hr
 
-/-- the wrapper returns false only when a whole batch of wrapped calls failed -/
-theorem orderedRun_failed {S : Type} (h : σ → α) (c : α) (mk : S → Option (List (Wrapped σ) × S)) :
-    ∀ (fuel : Nat) (q : List σ) (s s' : S), orderedRun h c mk fuel q s = .failed s' →
+/-- the old loop returns false only when a whole batch of wrapped calls failed -/
+theorem orderedRunOld_failed {S : Type} (h : σ → α) (c : α) (mk : S → Option (List (Wrapped σ) × S)) :
+    ∀ (fuel : Nat) (q : List σ) (s s' : S), orderedRunOld h c mk fuel q s = .failed s' →
       ∃ s0 b, mk s0 = some (b, s') ∧ ∀ w ∈ b, w.1 = false := by
   intro fuel
   induction fuel with
-  | zero => intro q s s' hr; simp [orderedRun] at hr
+  | zero => intro q s s' hr; simp [orderedRunOld] at hr
   | succ fuel ih =>
     intro q s s' hr
     cases q with
     | nil =>
-      rw [orderedRun] at hr
+      rw [orderedRunOld] at hr
       split at hr
       · cases hr
       · rename_i b s1 hmks
@@ -142,7 +255,7 @@ theorem orderedRun_failed {S : Type} (h : σ → α) (c : α) (mk : S → Option
           · cases hr
           · exact ih [] s1 s' hr
     | cons y ys =>
-      rw [orderedRun] at hr
+      rw [orderedRunOld] at hr
       split at hr
       · cases hr
       · split at hr
